@@ -560,7 +560,7 @@ fn set_role_r(w: &W08, sim: &mut PSim, probe: &Probe, rule: &AccessRule) {
 fn set_owner_rule(w: &W08, sim: &mut PSim, probe: &Probe, rule: &AccessRule) {
     let args = scrypto_encode(&RoleAssignmentSetOwnerInput { rule: rule.clone() }).unwrap();
     let ops = [Op::CallRaw { recv: N::Actor(2), module: Some(AttachedModuleId::RoleAssignment), method: ROLE_ASSIGNMENT_SET_OWNER_IDENT.into(), args }];
-    must_commit(sim, probe, mb(w.acct).call_method(w.c, "call", manifest_args!(script_bytes(&ops))).build(), "set owner rule through the component's own code");
+    must_commit(sim, probe, mb(w.acct).call_method(w.c, "call", manifest_args!(script_bytes(&ops), w.g, w.nf)).build(), "set owner rule through the component's own code");
 }
 
 #[derive(Clone, Copy, Debug, PartialEq, Eq)]
@@ -658,13 +658,13 @@ fn chain_case(w: &W08, rule: &AccessRule, path: Path, assert: bool, t: &[Atom], 
         Path::Direct => m.call_method(w.c, "guarded", manifest_args!(script_bytes(&[]))).build(),
         Path::ViaFn => {
             let ops = final_ops(w, rule, assert, N::Arg(0));
-            m.call_function(w.pkg_p, BP_A, "run", manifest_args!(script_bytes(&ops), w.c)).build()
+            m.call_function(w.pkg_p, BP_A, "run", manifest_args!(script_bytes(&ops), w.c, w.g, w.nf)).build()
         }
         _ => {
             // K1 script: push Q proofs, then continue along the path
             let mut k1_ops: Vec<Op> = vec![];
             let mut bucket_args: Vec<&str> = vec![];
-            let mut next_arg = 2u8; // Arg(0) = C, Arg(1) = K2
+            let mut next_arg = 4u8; // Arg(0) = C, Arg(1) = K2, Arg(2) = G, Arg(3) = NF (resource references used by the rule)
             for a in q {
                 match a {
                     QAtom::G5 => {
@@ -684,23 +684,23 @@ fn chain_case(w: &W08, rule: &AccessRule, path: Path, assert: bool, t: &[Atom], 
             let nregs = q.len() as u8;
             match path {
                 Path::ViaK1 => k1_ops.extend(final_ops(w, rule, assert, N::Arg(0))),
-                Path::ViaK1K2 => k1_ops.push(Op::CallProbeMethod { recv: N::Arg(1), method: "call".into(), script: final_ops(w, rule, assert, N::Arg(0)), pass: vec![Pass::Ref(N::Arg(0))] }),
+                Path::ViaK1K2 => k1_ops.push(Op::CallProbeMethod { recv: N::Arg(1), method: "call".into(), script: final_ops(w, rule, assert, N::Arg(0)), pass: vec![Pass::Ref(N::Arg(0)), Pass::Ref(N::Arg(2)), Pass::Ref(N::Arg(3))] }),
                 _ => {
                     k1_ops.push(Op::OpenField { obj: 0, idx: 0, mutable: false });
                     k1_ops.push(Op::FieldReadOwn(0));
-                    k1_ops.push(Op::CallProbeMethod { recv: N::Reg(nregs), method: "call".into(), script: final_ops(w, rule, assert, N::Arg(0)), pass: vec![Pass::Ref(N::Arg(0))] });
+                    k1_ops.push(Op::CallProbeMethod { recv: N::Reg(nregs), method: "call".into(), script: final_ops(w, rule, assert, N::Arg(0)), pass: vec![Pass::Ref(N::Arg(0)), Pass::Ref(N::Arg(2)), Pass::Ref(N::Arg(3))] });
                     k1_ops.push(Op::FieldClose(0));
                 }
             }
             // give the buckets back (their proofs are dropped first)
             k1_ops.push(Op::CallRaw { recv: N::Actor(8), module: None, method: "drop_proofs".into(), args: scrypto_encode(&()).unwrap() });
-            k1_ops.push(Op::Return((0..q.len() as u8).map(|i| N::Arg(2 + i)).collect()));
+            k1_ops.push(Op::Return((0..q.len() as u8).map(|i| N::Arg(4 + i)).collect()));
             let bytes = script_bytes(&k1_ops);
-            let (c, k2, k1) = (w.c, w.k2, w.k1);
+            let (c, k2, k1, g, nf) = (w.c, w.k2, w.k1, w.g, w.nf);
             let m = m.with_name_lookup(|b, lookup| match bucket_args.len() {
-                0 => b.call_method(k1, "call", manifest_args!(bytes, c, k2)),
-                1 => b.call_method(k1, "call", manifest_args!(bytes, c, k2, lookup.bucket(bucket_args[0]))),
-                _ => b.call_method(k1, "call", manifest_args!(bytes, c, k2, lookup.bucket(bucket_args[0]), lookup.bucket(bucket_args[1]))),
+                0 => b.call_method(k1, "call", manifest_args!(bytes, c, k2, g, nf)),
+                1 => b.call_method(k1, "call", manifest_args!(bytes, c, k2, g, nf, lookup.bucket(bucket_args[0]))),
+                _ => b.call_method(k1, "call", manifest_args!(bytes, c, k2, g, nf, lookup.bucket(bucket_args[0]), lookup.bucket(bucket_args[1]))),
             });
             m.deposit_entire_worktop(w.acct).build()
         }
@@ -779,7 +779,7 @@ pub fn run(ctx: Ctx) -> ! {
                         Entry::Role => m.call_method(w.c, "guarded", manifest_args!(script_bytes(&[]))),
                         Entry::RoleList => m.call_method(w.c, "guarded_rs", manifest_args!(script_bytes(&[]))),
                         Entry::OwnerFallback => m.call_method(w.c, "guarded_t", manifest_args!(script_bytes(&[]))),
-                        Entry::Assert => m.call_function(w.pkg_p, BP_A, "run", manifest_args!(script_bytes(&[Op::AssertRule(rule.clone())]))),
+                        Entry::Assert => m.call_function(w.pkg_p, BP_A, "run", manifest_args!(script_bytes(&[Op::AssertRule(rule.clone())]), w.g, w.nf)),
                         Entry::Function => m.call_function(w.fn_pkgs[fn_pkg.unwrap()], "ProbeF", "guarded_fn", manifest_args!(script_bytes(&[]))),
                     }
                     .build();
